@@ -121,7 +121,7 @@ func (g *goGen) expr(v *MVal) string {
 		}
 		v.varName = g.newVar("c")
 		et := t.Underlying().(*types.Pointer).Elem()
-		g.decls = append(g.decls, fmt.Sprintf("%s := new(%s)", v.varName, g.typeStr(et)))
+		g.decls = append(g.decls, fmt.Sprintf("%s := new(%s)", v.varName, g.typeStr(et)), "_ = "+v.varName)
 		if len(v.Elems) == 1 {
 			g.fills = append(g.fills, fmt.Sprintf("*%s = %s", v.varName, g.expr(v.Elems[0])))
 		}
@@ -143,7 +143,7 @@ func (g *goGen) expr(v *MVal) string {
 			return v.varName
 		}
 		v.varName = g.newVar("m")
-		g.decls = append(g.decls, fmt.Sprintf("%s := %s{}", v.varName, g.typeStr(t)))
+		g.decls = append(g.decls, fmt.Sprintf("%s := %s{}", v.varName, g.typeStr(t)), "_ = "+v.varName)
 		for i := range v.Keys {
 			g.fills = append(g.fills, fmt.Sprintf("%s[%s] = %s", v.varName, g.expr(v.Keys[i]), g.expr(v.Vals[i])))
 		}
